@@ -72,6 +72,15 @@ class ConvexSpheropolygon(Shape2D):
         }
 
     @property
+    def centroid(self):
+        """:math:`(3, )` :class:`numpy.ndarray` of float: Get or set the centroid of the shape."""  # noqa: E501
+        return self._polygon.centroid
+
+    @centroid.setter
+    def centroid(self, value):
+        self._polygon.centroid = value
+
+    @property
     def normal(self):
         """:math:`(3, )` :class:`numpy.ndarray` of float: Get the normal vector."""
         return self._polygon.normal
